@@ -381,10 +381,19 @@ class BaseModel(Generic[MvalT_co], metaclass=ModelsMeta):
 
     def finish(self) -> Self:
         self._check_not_finished()
+        self._enforce_access()
         self._complete_frames()
-        self.R.enforce()
         self._finished = True
         return self
+
+    def _enforce_access(self):
+        """Enforce the access restrictions. This can add a world, so it is
+        done before the frames are completed."""
+        self._check_not_finished()
+        # ensure R has each world
+        for w in self.frames:
+            self.R[w]
+        self.R.enforce()
 
     def get_data(self) -> dict:
         frames = self.frames
